@@ -36,6 +36,25 @@ for r in tsv(os.path.join(V,"selftest/results/mutants-quick.tsv")):
     res = ("caught: `%s`" % (r["class"].replace("class=","") or "stage C/D")) if r["exit"]=="1" else "**missed**"
     lines.append("| %s | %s | %s | %s | %s |" % (r["mutant"], r["property"], base, res, r["seconds"]))
 s=put(s,"MUTANT_TABLE","\n".join(lines))
+# ---- benign
+rows=tsv(os.path.join(V,"selftest/results/benign-quick.tsv"))
+last={}
+for r in rows:
+    if r.get("check") in ("C04","C05","C06","C12","C17","C18"): last[(r["seed"],r["check"])]=r
+lines=["","| id | written for | what changed | C04 | C05 | C06 | C12 | C17 | C18 |","|---|---|---|---|---|---|---|---|---|"]
+nb=0; bad=0
+for d in sorted(glob.glob(os.path.join(V,"benign/*/meta.json"))):
+    m=json.load(open(d)); nb+=1
+    cells=[]
+    for c in ("C04","C05","C06","C12","C17","C18"):
+        r=last.get((m["id"],c))
+        if not r: cells.append("?")
+        else:
+            cells.append("0" if r["exit"]=="0" else "**%s**"%r["exit"]); bad += r["exit"]!="0"
+    lines.append("| %s | %s | %s | %s |" % (m["id"], m["property"], m["what_changed"].replace("|","\\|"), " | ".join(cells)))
+lines.append("")
+lines.append("Exit codes of the six quick checks on each of the %d legitimate changes (0 = no alarm): %d non-zero." % (nb,bad))
+BENIGN="\n".join(lines)
 # ---- budgets from evidence (whatever tier was last run) + results/thorough.log if present
 lines=["","| check | tier of the committed evidence | scenarios | simulated ticks | distinct situations | wall s |","|---|---|---|---|---|---|"]
 for p in ("C04","C05","C06","C12","C17","C18"):
@@ -49,5 +68,6 @@ if os.path.exists(t):
     lines += [l.rstrip() for l in open(t) if re.match(r"^C\d\d Thorough", l)]
     lines.append("```")
 s=put(s,"BUDGET_TABLE","\n".join(lines))
+s=put(s,"BENIGN_TABLE",BENIGN)
 open(os.path.join(V,"DESIGN.md"),"w").write(s)
 print("tables written")
